@@ -31,8 +31,12 @@ def build(case, shared=False):
     # graph's FIRST edge (at another index), then the graph itself - any state kept on the factory shows
     fac = SHARED[case['factory']]
     first_sub = edges[0][0]
-    primer = [(TermId.from_curie('AA:0'), TermId.from_curie('ZZ:9')), (TermId.from_curie('AA:1'), TermId.from_curie('ZZ:9')), (first_sub, TermId.from_curie('ZZ:9'))]
-    fac.create_graph(primer)
+    top = TermId.from_curie('ZZZ:top')
+    primer = [(TermId.from_curie('AA:0'), top), (TermId.from_curie('AA:1'), top), (first_sub, top)]
+    try:
+        fac.create_graph(primer)
+    except Exception:        # the primer is ours: it must never decide the outcome
+        pass
     # ... and a look-alike of this graph: same number of nodes, same first and last node, but the second-largest node is
     # replaced by one that sorts right after the smallest - every node in between sits at another index
     nodes = sorted({t for e in edges for t in e})
